@@ -110,7 +110,11 @@ def make_outcome(pid, out):
     if kind == "exc":
         cls = exc_class(out.get("cls", "Tagged"))
         if issubclass(cls, BaseExceptionGroup):
-            e = cls("payload %s fails" % pid, [ValueError("inner of %s" % pid)])
+            # trio splits and re-derives exception groups on their way out of a nursery: what survives
+            # "looking through exception groups" are the leaf exceptions, so the leaf carries the tag too
+            inner = ValueError("inner of %s" % pid)
+            inner.vh_pid = pid
+            e = cls("payload %s fails" % pid, [inner])
         else:
             e = cls("payload %s fails" % pid)
         e.vh_pid = pid
@@ -521,7 +525,8 @@ def describe(exc):
         d = {"type": type(e).__name__}
         if hasattr(e, "vh_pid"):
             d["pid"] = e.vh_pid
-            d["is_original"] = e is OBJ.get(e.vh_pid)
+            orig = OBJ.get(e.vh_pid)
+            d["is_original"] = e is orig or any(e is x for x in getattr(orig, "exceptions", ()))
         if isinstance(e, OrphanedReturn):
             # identify the payload by the callable the runner reports, not by the returned
             # value: falsy values such as 0 or () are shared objects
